@@ -174,6 +174,32 @@ pub fn one<T: El>(rep: &mut Report, len: usize, size: usize, only_kind: Option<&
     }
 }
 
+/// the other entry points to the element iterator: into_iter! on &[T], &&[T], &[T; N], &&[T; N]
+fn entry_points(rep: &mut Report) {
+    let arr = [1u8, 2, 3, 4, 5];
+    let s: &[u8] = &arr;
+    macro_rules! ep {
+        ($name:literal, $mk:expr, $std:expr) => {{
+            let d = || (format!("into_iter|u8|5|1|{}", $name), format!("into_iter!({})", $name));
+            let mut c = ctx(rep, &d, 5, &None);
+            let mut path = Vec::new();
+            explore(&mut c, $mk, RefIt { it: $std, reversed: false }, &|x: &&u8| l(s, std::slice::from_ref(*x)), &|x: &&u8| l(s, std::slice::from_ref(*x)),
+                &|k: &ks::Iter<'_, u8>| l(s, k.as_slice()), &|r: &RefIt<std::slice::Iter<'_, u8>>| l(s, r.it.as_slice()), &mut path);
+        }};
+    }
+    ep!("&[T]", konst::iter::into_iter!(s), s.iter());
+    ep!("&&[T]", konst::iter::into_iter!(&s), s.iter());
+    {
+        // arrays: the iterator borrows the array itself, so locations are relative to it
+        let s: &[u8] = &arr;
+        let _ = s;
+        ep!("&[T; N]", konst::iter::into_iter!(&arr), arr.iter());
+        let r = &arr;
+        ep!("&&[T; N]", konst::iter::into_iter!(&r), arr.iter());
+        ep!("iter.copy()", ks::iter(s).copy(), s.iter());
+    }
+}
+
 fn one_copied(rep: &mut Report, len: usize, only: &Option<Vec<u8>>, wantdir: Option<&str>) {
     let v: Vec<u8> = (0..len).map(<u8 as El>::make).collect();
     let s: &[u8] = &v;
@@ -216,9 +242,10 @@ pub fn run(tier: Tier, rep: &mut Report) -> (String, String) {
         r.sample(|| format!("all next/next_back histories of every iterator kind x 3 direction variants on &[{ty}; {len}] with size {size}"));
     });
     rep.merge(r);
+    entry_points(rep);
     (
         "state = (iterator kind, direction variant, element type, slice length, size, history of next/next_back steps); children are made from copy(); every step and every state accessor (as_slice/remainder) is compared with the std iterator of the same name by address and length; size 0 must panic; traces = complete histories (both ends report None); non-trivial = length >= 3 and more than two complete histories".into(),
-        format!("kinds: iter, iter_copied, windows, chunks, rchunks, chunks_exact, rchunks_exact, array_chunks::<1..=7>; variants: forward, .rev(), .rev().rev(); element types u8 (distinct) with len 0..={maxlen}, unit/String/[u16;2] with len 0..={}; sizes 0..=len+1", maxlen.min(tier.pick(9, 11, 3))),
+        format!("kinds: iter (also through into_iter! on &[T], &&[T], &[T;N], &&[T;N]), iter_copied, windows, chunks, rchunks, chunks_exact, rchunks_exact, array_chunks::<1..=7>; variants: forward, .rev(), .rev().rev(); element types u8 (distinct) with len 0..={maxlen}, unit/String/[u16;2] with len 0..={}; sizes 0..=len+1", maxlen.min(tier.pick(9, 11, 3))),
     )
 }
 
@@ -229,6 +256,9 @@ pub fn replay(case: &str, rep: &mut Report) {
     let only = Some(p.get(5).copied().unwrap_or("").as_bytes().to_vec());
     if kind == "iter_copied" {
         return one_copied(rep, len, &only, Some(dir));
+    }
+    if kind == "into_iter" {
+        return entry_points(rep);
     }
     match ty {
         "u8" => one::<u8>(rep, len, size, Some(kind), &only, Some(dir)),
